@@ -136,6 +136,15 @@ def enclosing_statement(path, line):
 def make_targets(targets, jobs=8, timeout=3000):
     """make the .vo targets (keep going); returns (ok, failures[list of dict], log)"""
     rc, out = sh(f"timeout {timeout} make -k -j{jobs} " + " ".join(targets), cwd=COQ, timeout=timeout + 30)
+    if rc != 0 and ("missing separator" in out or "No rule to make target" in out):
+        # stale or damaged generated build files: regenerate them once and retry
+        for f in (".Makefile.d", "Makefile", "Makefile.conf", "_CoqProject"):
+            try:
+                os.unlink(os.path.join(COQ, f))
+            except OSError:
+                pass
+        ensure_makefile()
+        rc, out = sh(f"timeout {timeout} make -k -j{jobs} " + " ".join(targets), cwd=COQ, timeout=timeout + 30)
     failures = []
     for m in re.finditer(r'File "\./([^"]+)", line (\d+), characters [\d-]+:\s*\n(Error:(?:.*\n?){1,6})', out):
         f, ln, err = m.group(1), int(m.group(2)), m.group(3)
